@@ -127,6 +127,11 @@ func buildRuleList(rules ruleContainer) (ruleList, error) {
 	sort.Slice(points, func(i, j int) bool {
 		return bytes.Compare(points[i].key, points[j].key) < 0
 	})
+	if len(points[0].key) > 0 {
+		// keys before the first start key would be left without any rule.
+		return ruleList{}, errs.ErrBuildRuleList.FastGenByArgs(fmt.Sprintf("no rule for range {%s, %s}",
+			"", strings.ToUpper(hex.EncodeToString(points[0].key))))
+	}
 
 	// determine rules for each range.
 	var rl ruleList
